@@ -160,7 +160,7 @@ def tbLineMon (d : TBDrv) (lineNo : Nat) (ts : List String) : TBDrv × List Stri
   let op (label : String) (membership : Bool) (setPending : Bool := true) : TBDrv × List String :=
     let ok := post == ["ok"] || post.isEmpty
     ({ d with pending := if setPending then some { label := label, line := lineNo, implOk := ok, membership := membership } else d.pending,
-              mon := TBSpec.noteOp d.mon label pre ok d.lastObs }, [])
+              mon := TBSpec.noteOp d.mon label (pre ++ post.map (fun t => "res:" ++ t)) ok d.lastObs }, [])
   match pre with
   | "reserve" :: _ => op "reserve" true
   | "join" :: _ => op "join" true
@@ -251,7 +251,7 @@ def tbLineCore (d : TBDrv) (lineNo : Nat) (ts : List String) : TBDrv × List Str
     let d := { d with cnt := (d.cnt.bump label).bump (label ++ (if r.2 == .ok then ".ok" else ".err")) }
     if tbResAgrees r.2 post then
       ({ d with model := some r.1, pending := some { label := label, line := lineNo, implOk := post == ["ok"], membership := membership },
-                mon := TBSpec.noteOp d.mon label pre (post == ["ok"]) d.lastObs }, [])
+                mon := TBSpec.noteOp d.mon label (pre ++ post.map (fun t => "res:" ++ t)) (post == ["ok"]) d.lastObs }, [])
     else mism d s!"op={label} model={String.intercalate " " (tbErrStr r.2)} impl={String.intercalate " " post}"
   let silent (label : String) (s' : State) : TBDrv × List String :=
     ({ d with model := some s', cnt := d.cnt.bump label,
